@@ -152,13 +152,21 @@ class Chooser:
 
 def innermost_project_frame(exc: BaseException):
     """Deepest traceback frame lying under /repo or /verif -> ('repo'|'verif'|None, file, func, line)."""
-    tb = traceback.extract_tb(exc.__traceback__)
-    for fr in reversed(tb):
-        fn = os.path.abspath(fr.filename)
+    frames = []
+    tb = exc.__traceback__
+    while tb is not None:
+        code = tb.tb_frame.f_code
+        frames.append((os.path.abspath(code.co_filename), code.co_name, getattr(code, "co_qualname", code.co_name),
+                       tb.tb_lineno))
+        tb = tb.tb_next
+    for fn, name, qual, lineno in reversed(frames):
         if fn.startswith(REPO_ROOT + "/"):
-            return "repo", os.path.relpath(fn, REPO_ROOT), fr.name, fr.lineno
+            return "repo", os.path.relpath(fn, REPO_ROOT), name, lineno
         if fn.startswith(VERIF_ROOT + "/"):
-            return "verif", os.path.relpath(fn, VERIF_ROOT), fr.name, fr.lineno
+            # an in-memory canary mutant stands in for library code: its frames count as rl4co's
+            if qual.startswith("_canary") or fn.endswith("canaries_env.py"):
+                return "repo", "canary:" + os.path.relpath(fn, VERIF_ROOT), name, lineno
+            return "verif", os.path.relpath(fn, VERIF_ROOT), name, lineno
     return None, None, None, None
 
 
